@@ -362,6 +362,9 @@ class MonteCarloNoise:
 
     def _get_rnd_noise_obj(self, reg_type, gate_name):
         noise_tuple_list = self.mc_noise_model.get_gate_noise(reg_type, gate_name)
+        if len(noise_tuple_list) == 0:
+            # the gate is listed with nothing (its noise was replaced by an empty list) or with probability 0 only
+            return nm.NoNoise()
         noise_list = [x[0] for x in noise_tuple_list]
         prob_list = [x[1] for x in noise_tuple_list]
         self.n_noisy_gates += len(reg_type)
